@@ -2,6 +2,8 @@
 
 package memory
 
+import "github.com/paulsonkoly/calc/types/value"
+
 // VerifState exposes the sizes of the stacks for verification harnesses.
 func (m *Type) VerifState() (sp, frames, closures, stackLen int) {
 	return m.sp, len(m.fp) / 2, len(m.closure), len(m.stack)
@@ -16,4 +18,12 @@ func verifMinStack(n int) int {
 		return VerifMinStack
 	}
 	return n
+}
+
+// VerifTop returns the value on top of the stack, if there is one.
+func (m *Type) VerifTop() (value.Type, bool) {
+	if m.sp <= 0 || m.sp > len(m.stack) {
+		return value.Nil, false
+	}
+	return m.stack[m.sp-1], true
 }
